@@ -123,11 +123,14 @@ def run_path(world, it, ref, contract):
         return
     result = None
     exc = None
+    locals_env = None
     try:
         it.exec_block(fnode.body)
         result = atom(None)
+        locals_env = dict(st.env)
     except _Return as r:
         result = r.val
+        locals_env = dict(st.env)
     except _Raise as r:
         exc = r.exc
     except _PathEnd:
@@ -146,6 +149,17 @@ def run_path(world, it, ref, contract):
             for clause in contract.ensures:
                 g = it.spec_eval(clause, env, ref, old=old)
                 it.oblige("POST", clause, g, fnode.lineno)
+            if contract.exit_post and locals_env is not None:
+                env2 = dict(locals_env)
+                env2["result"] = result
+                for clause in contract.exit_post:
+                    try:
+                        g = it.spec_eval(clause, env2, ref, old=old)
+                    except Unsupported as e:
+                        if "unknown name" in str(e):
+                            continue   # a local that is not bound on this return path
+                        raise
+                    it.oblige("EXIT", clause, g, fnode.lineno)
         else:
             declared = None
             for d in contract.raises:
